@@ -258,6 +258,45 @@ def isTopErr : JV → Bool
   | .ptr v => isTopErr v
   | _ => false
 
+mutual
+/-- the value contains an object for which `objectEncoder` has no encoder -/
+def hasUnsupported : JV → Bool
+  | .opaque _ => true
+  | .errval => true
+  | .array xs => anyUnsupported xs
+  | .map kvs => anyUnsupportedM kvs
+  | .opts _ _ v => hasUnsupported v
+  | .ptr v => hasUnsupported v
+  | _ => false
+def anyUnsupported : List JV → Bool
+  | [] => false
+  | x :: xs => hasUnsupported x || anyUnsupported xs
+def anyUnsupportedM : List (Bytes × JV) → Bool
+  | [] => false
+  | (_, x) :: xs => hasUnsupported x || anyUnsupportedM xs
+end
+
+mutual
+/-- every raw message (the bytes a `Marshaler` returns) inside the value satisfies `P` -/
+def rawsOK (P : Bytes → Prop) : JV → Prop
+  | .raw b => P b
+  | .rawNil => P nullB
+  | .array xs => rawsOKL P xs
+  | .map kvs => rawsOKM P kvs
+  | .opts _ _ v => rawsOK P v
+  | .ptr v => rawsOK P v
+  | _ => True
+def rawsOKL (P : Bytes → Prop) : List JV → Prop
+  | [] => True
+  | x :: xs => rawsOK P x ∧ rawsOKL P xs
+def rawsOKM (P : Bytes → Prop) : List (Bytes × JV) → Prop
+  | [] => True
+  | (_, x) :: xs => rawsOK P x ∧ rawsOKM P xs
+end
+
+/-- the value holds no raw message -/
+def rawFree (v : JV) : Prop := rawsOK (fun _ => False) v
+
 /-- `Marshal(v)` -/
 def marshal (L : JsonLib) (v : JV) : Res Bytes := enc L false true true v
 
